@@ -97,8 +97,11 @@ def check_case(case, ctr):
                 return False
         return True
 
+    exts = {e for e, _ in base['concepts']}
     if base['fcbo'] != base['concepts'] or base['fcbo_dual'] != base['concepts'] \
-            or base['covers'] != base['covers_down']:
+            or base['covers'] != base['covers_down'] \
+            or any(z not in exts for _, _, z in base['join'] | base['meet']) \
+            or any(x not in exts for pair in base['covers'] for x in pair):
         bad('self-consistency', 'generators/covers', None, None)
         return V
     idr, idc = list(range(n)), list(range(m))
